@@ -119,6 +119,10 @@ RunResult execInstances(const Plan& plan)
     RunResult out;
     const int n = static_cast<int>(std::min<int64_t>(std::max<int64_t>(1, plan.cfgGet("nthreads", 2)), 4));
     std::vector<Plan> subs = splitThreads(plan, n);
+    for (auto& sp : subs)
+        for (auto& it : sp.items)
+            if (it.tag == "cfg")
+                it.set("keepall", 1);
     std::vector<std::unique_ptr<World>> w(static_cast<size_t>(n));
     std::vector<size_t> nOps(static_cast<size_t>(n), 0), pos(static_cast<size_t>(n), 0);
     size_t totalOps = 0;
@@ -154,7 +158,25 @@ RunResult execInstances(const Plan& plan)
         const size_t ti = static_cast<size_t>(t);
         const size_t chunk = 1 + r.below(3);
         const size_t to = std::min(nOps[ti], pos[ti] + chunk);
-        w[ti]->runOps(pos[ti], to);
+        if (r.chance(1, 3))
+        {
+            // this chunk runs on a thread of its own that ENDS before anything else happens (sequential, so still one
+            // schedule): whatever the library keeps per thread dies with it, while the packets it handed out live on in the
+            // world and are looked at again later, on this thread (ASan sees them if they did not really own their memory)
+            World* wp = w[ti].get();
+            const size_t a = pos[ti];
+            std::thread helper(
+                [wp, a, to]
+                {
+                    simClockEnable(true);
+                    wp->runOps(a, to);
+                    simClockEnable(false);
+                });
+            helper.join();
+            out.probes["chunk-on-a-thread-that-ended"] += 1;
+        }
+        else
+            w[ti]->runOps(pos[ti], to);
         done += to - pos[ti];
         pos[ti] = to;
         if (r.chance(1, 2))
@@ -189,6 +211,14 @@ RunResult execInstances(const Plan& plan)
                        (flood ? " (a neighbour decoded " + std::to_string(flood) + " frames in between)" : "") + ", produced results different from the same workload run alone";
             out.viol.push_back(v);
         }
+        for (auto& wv : rr.viol)
+            if (wv.rule.rfind("own.", 0) == 0 || wv.rule.rfind("crash.", 0) == 0)
+            {
+                // (what a workload's own ownership oracle saw: a packet that changed after the thread that produced it ended)
+                Violation v = wv;
+                v.prop = plan.prop;
+                out.viol.push_back(v);
+            }
         for (auto& kv : rr.probes)
             out.probes[kv.first] += kv.second;
         out.apiCalls += rr.apiCalls + solo.apiCalls;
